@@ -27,7 +27,8 @@ a lone surrogate in any bound string raises `UnicodeEncodeError`, an integer ≥
 `StatementError` (SQLAlchemy 2 under the compat shim), `update_one()` without columns is a
 syntax error (`OperationalError`); a `None` for a NOT NULL column with a default gets the
 default.  `URLInfo.parse(url).hostname` is a *parameter*: each batch entry carries the logged
-result (`parse`: raises / hostname None / hostname).
+result (`parse`: raises / hostname None / hostname).  Every added URL is parsed (a `ValueError`
+rolls the batch back); only the hosts of added *start* entries go into `hostnames`.
 -/
 import Wpull.Py.Basic
 namespace Wpull.Table
@@ -306,6 +307,20 @@ def addHosts (hosts : List Str) (hs : List (Option Str)) : List Str :=
     | none => acc
     | some h => if h ∈ acc then acc else acc ++ [h]) hosts
 
+/-- `not (url_properties and url_properties.level)`: the entry is a start URL (no properties, or
+level `None` / 0) -/
+def Entry.isStart (e : Entry) : Bool :=
+  match e.props with
+  | none => true
+  | some p => p.level.getD 0 == 0
+
+/-- the hostnames `add_many` records (repaired code, `fixed:` C02 d5f1693): of the batch entries,
+in batch order, those whose URL was added and that are start URLs — the test looks at the
+*entry's* properties, so a later duplicate entry without properties also counts -/
+def startHosts (batch : List Entry) (added : List Str) : List (Option Str) :=
+  (batch.filter (fun e => added.contains e.url && e.isStart)).map
+    (fun e => (parseOf batch e.url).join)
+
 /-- a batch needs somebody to supply the `parent_url` and `root_url` bind parameters -/
 def missingBind (batch : List Entry) : Bool :=
   !(batch.any (fun e => e.parentParam.isSome)) || !(batch.any (fun e => e.rootParam.isSome))
@@ -320,7 +335,9 @@ def addMany (t : Table) (batch : List Entry) : Table × Out :=
     let added := (rows.filter (fun r => last < r.id)).filterMap (fun r => strOf ss r.urlId)
     match added.mapM (parseOf batch) with
     | none => (t, .exc .ValueError)
-    | some hs => ({ t with strings := ss, rows := rows, hosts := addHosts t.hosts hs }, .urls added)
+    | some _ =>
+      ({ t with strings := ss, rows := rows, hosts := addHosts t.hosts (startHosts batch added) },
+       .urls added)
 
 /-- reference: keyed insert-if-absent -/
 def known (ek : Bool) (p : Str) : Option Str := if p = [] ∧ ek = false then none else some p
@@ -339,7 +356,9 @@ def sAddMany (s : Spec) (batch : List Entry) : Spec × Out :=
     let added := (recs.drop s.rows.length).map (·.url)
     match added.mapM (parseOf batch) with
     | none => (s, .exc .ValueError)
-    | some hs => ({ s with rows := recs, emptyKnown := ek, hosts := addHosts s.hosts hs }, .urls added)
+    | some _ =>
+      ({ s with rows := recs, emptyKnown := ek, hosts := addHosts s.hosts (startHosts batch added) },
+       .urls added)
 
 /-! ### check_out -/
 
